@@ -190,7 +190,12 @@ func immediate(c counts, bad string) (string, string) {
 
 // delivered applies the output part of the oracle to everything delivered since the last tick: n cases were played, whose
 // counter increments add up to c.
-func (h *harness) delivered(s *session, base [][3]string, n int, c counts, count bool) (string, string) {
+func (h *harness) delivered(s *session, base [][3]string, n int, c counts, count bool, interrupted bool) (string, string) {
+	if interrupted {
+		// the core is being judged after a case that panicked half-way: its counters and output also hold the part of that
+		// case that was handled before the panic (at most its sentinels 1 and 2), so only the sentinel sequence is checked
+		s.gatherE = true
+	}
 	if s.gatherE {
 		// a label value that is not valid UTF-8 makes the pipeline registry unreadable (Gather fails): the pipeline-level
 		// counters cannot be observed; delivery is still checked. Reported in the evidence notes.
@@ -208,11 +213,11 @@ func (h *harness) delivered(s *session, base [][3]string, n int, c counts, count
 		if !s.gatherE && len(es) != c.procPassed {
 			return "accounting:delivered-differs-from-passed:" + oname, fmt.Sprintf("pipelines counted %d passed records but output %s received %d events", c.procPassed, oname, len(es))
 		}
-		if len(es) > c.inPassed {
+		if !interrupted && len(es) > c.inPassed {
 			return "accounting:delivered-more-than-accepted:" + oname, fmt.Sprintf("input accepted %d records but output %s received %d events", c.inPassed, oname, len(es))
 		}
 		// sentinels: the sentinel texts must appear as (1,2,3) x n, unchanged, in that order, all in one pipeline
-		next, pipe, own := 0, -1, 0
+		next, pipe, own, extra := 0, -1, 0, 0
 		for _, e := range es {
 			which := -1
 			for i := 0; i < 3; i++ {
@@ -233,6 +238,10 @@ func (h *harness) delivered(s *session, base [][3]string, n int, c counts, count
 			}
 			if pipe < 0 {
 				pipe = e.pipe
+			}
+			if interrupted && next == 3*n && extra < 2 && e.pipe == pipe && which == extra {
+				extra++
+				continue
 			}
 			if e.pipe != pipe || which != next%3 || next >= 3*n {
 				return "sentinel:reordered-or-duplicated:" + oname, fmt.Sprintf("event #%d of the sentinel sequence on %s is sentinel %d in pipeline %d; expected sentinel %d in pipeline %d (sequence 1,2,3 x %d)",
@@ -268,7 +277,7 @@ func (h *harness) single(lim limits, st *sentinels, bad string) (string, string)
 	if k, m := immediate(c, bad); k != "" {
 		return k, m
 	}
-	return h.delivered(s, base, 1, c, false)
+	return h.delivered(s, base, 1, c, false, false)
 }
 
 // step plays one case on the running agent core. What can be judged at once is judged (panic, input accounting, accept /
@@ -300,7 +309,7 @@ func (h *harness) step(id string, lim limits, st *sentinels, bad, shown string) 
 	}
 	// judge the earlier cases of the batch, then drop the core
 	fresh := s.cases == 1
-	h.flushBatch()
+	h.flushBatch(site != "")
 	h.sess = nil
 	if fresh {
 		return key, msg
@@ -312,7 +321,7 @@ func (h *harness) step(id string, lim limits, st *sentinels, bad, shown string) 
 }
 
 // flushBatch fires the pipelines' flush tick and judges the output of the pending cases.
-func (h *harness) flushBatch() {
+func (h *harness) flushBatch(interrupted bool) {
 	if len(h.batch) == 0 || h.sess == nil {
 		h.batch = h.batch[:0]
 		return
@@ -331,7 +340,7 @@ func (h *harness) flushBatch() {
 	if site != "" {
 		key, msg = "panic:"+site, detail
 	} else {
-		key, msg = h.delivered(s, h.baseline(lim, st), len(batch), total, true)
+		key, msg = h.delivered(s, h.baseline(lim, st), len(batch), total, !interrupted, interrupted)
 	}
 	if key == "" {
 		if s.cases >= maxCasesPerSession || len(s.in.pipes) > maxPipes || s.gatherE {
@@ -371,7 +380,7 @@ func (h *harness) run(id string, lim limits, st *sentinels, bad string) {
 		return
 	}
 	if h.sess != nil && (h.blim.name != lim.name || h.bst != st) {
-		h.flushBatch()
+		h.flushBatch(false)
 		h.sess = nil
 	}
 	shown := fmt.Sprintf("%q", bad)
@@ -390,7 +399,7 @@ func (h *harness) run(id string, lim limits, st *sentinels, bad string) {
 		return key, fmt.Sprintf("limits=%s record=%s\n%s", lim.name, shown, msg)
 	})
 	if len(h.batch) >= batchSize {
-		h.flushBatch()
+		h.flushBatch(false)
 	}
 }
 
@@ -402,7 +411,7 @@ func enumerate(ctx *seq.Ctx) {
 	enumMenus(h)
 	enumEdits(h, seeds)
 	enumShort(h)
-	h.flushBatch()
+	h.flushBatch(false)
 	ctx.Note("outcomes_in_one_worker_process", fmt.Sprintf("bad record rejected at input=%d, delivered=%d (of which through a pipeline other than the sentinels'=%d), dropped by pipeline transforms=%d, panics=%d, "+
 		"flush ticks after which the pipeline registry was unreadable (invalid UTF-8 label)=%d, agent cores built=%d, flush ticks judged=%d, batches re-run case by case=%d",
 		h.nRejected, h.nDelivered, h.nOwnPipe, h.nProcDropped, h.nPanic, h.nGatherErr, h.nSessions, h.nBatches, h.nFallback))
